@@ -2025,3 +2025,12 @@ MA('C05', 'wavelet adjoint scaled by the transformed axes only',
    'odl/trafos/wavelet.py', 'WaveletTransform.adjoint',
    'scale = 1 / self.domain.partition.cell_volume',
    'scale = 1 / np.prod(self.domain.cell_sides[list(self.axes)])', 'R9w')
+MA('C20', 'set union equality tests one inclusion only',
+   'odl/set/sets.py', 'SetUnion.__eq__',
+   'return type(self) == type(other) and all((set_ in other.sets for set_ in self.sets)) and all((set_ in self.sets for set_ in other.sets))',
+   'return type(self) == type(other) and all((set_ in other.sets for set_ in self.sets))',
+   'SetUnion.__eq__')
+MA('C20', 'custom inner product hashed by the identity of the callable',
+   'odl/space/weighting.py', 'CustomInner.__hash__',
+   'return hash((super(CustomInner, self).__hash__(), self.inner))',
+   'return hash((super(CustomInner, self).__hash__(), id(self.inner)))', 'R1c')
